@@ -66,6 +66,27 @@ def run(shard, ctx):
             for fname in T.CONSTRUCTORS:
                 check_constructor(ctx, fname, n)
                 ctx.case((fname, n if len(n) < 40 else (n[:3], len(n))), nontrivial=len(n) > 1)
+        # many distinct long names in one process (more than any bounded memo is likely to hold): each is still measured right
+        if L in "CG":
+            rng_v = ctx.rng("volume")
+            bad = None
+            for k in range(shard.get("volume", 6000)):
+                body = "".join(rng_v.choice("#b") for _ in range(130 + k % 40))
+                nm = L + body
+                other = "FA"[k % 2] + "#" * (k % 5)
+                d = (T.pc(other) - T.pc(nm)) % 12
+                st, v = ctx.call(intervals.measure, nm, other)
+                if not (st == "ok" and v == d):
+                    bad = (k, repr(v)[:160])
+                    break
+                if k % 97 == 0:
+                    st, r = ctx.call(intervals.major_third, nm)
+                    if not (st == "ok" and T.valid(r) and T.pc(r) == (T.pc(nm) + 4) % 12):
+                        bad = (k, repr(r)[:160])
+                        break
+            ctx.check("measure == pc difference mod 12", bad is None, {"distinct_long_names_so_far": bad[0] if bad else None}, None,
+                      bad[1] if bad else None, mechanism="measure:many-distinct-long-names")
+            ctx.case(("volume", L))
         for n in longs:
             for other in ("C", "F#", "Bbb", longs[0]):
                 for (a, b) in ((n, other), (other, n)):
